@@ -408,9 +408,9 @@ impl<'a, F: IVP> SolOut for DefaultSolOut<'a, F> {
             let mut i = self.next_idx;
             
             if xold == *x {
-                // Initial callback (xold == x): output at matching t_eval points. A genuine step, however short, is
-                // sampled through its interpolant below
-                while i < t_eval.len() && (t_eval[i] - *x).abs() <= self.tol {
+                // Initial callback (xold == x): requested times equal to x0 carry the initial state. Every other requested
+                // time, however close to x0, is sampled through the interpolant of the step that contains it (below)
+                while i < t_eval.len() && t_eval[i] == *x {
                     self.t.push(t_eval[i]);
                     self.y.push(y.to_vec());
                     i += 1;
